@@ -107,7 +107,9 @@ def rand_universe(rng):
     for k in range(rng.randint(0, 4)):
         if len(sdo) >= 1:
             a, b = rng.choice(sdo), rng.choice(sdo)
-            for v in rng.sample([1, 2, 11], rng.randint(1, 2)):
+            for v in rng.sample([1, 2, 11], rng.randint(1, 3)):
+                if rng.random() < 0.4:          # a later version of the relationship may point elsewhere (also: what was its source becomes its target)
+                    a, b = rng.choice([(b, a), (rng.choice(sdo), a), (a, rng.choice(sdo))])
                 recs.append(D.mk(D.T_REL * 10 + k + 1, v, name=D.ABSENT, src=a, tgt=b, rtype=rng.choice([1, 2])))
     return recs
 
@@ -243,8 +245,19 @@ def pipeline(chk):
                     src = store.source
                     src.filters.add([D.conc_filter(f, rng) for f in att])
                     try:
-                        lines.append(read_line(tid, "query", name, listed, pair.ref, lambda: store.query([D.conc_filter(f, rng) for f in fl]), filters=fl + att,
-                                               extra={"routes": {"argument": len(fl), "attached": len(att)}}))
+                        if rng.random() < 0.35:
+                            # the query handed over as a FilterSet object the caller keeps: it is used again on the other store (which has nothing attached) and must still
+                            # say what it said
+                            from stix2.datastore.filters import FilterSet
+                            fset = FilterSet([D.conc_filter(f, rng) for f in fl])
+                            lines.append(read_line(tid, "query", name, listed, pair.ref, lambda: store.query(fset), filters=fl + att,
+                                                   extra={"routes": {"argument": len(fl), "attached": len(att), "filterset_object": 1}}))
+                            oname, ostore = ("fs", pair.fs) if name == "memory" else ("memory", pair.mem)
+                            lines.append(read_line(tid, "query", oname, pair.listed["fs" if oname == "fs" else "mem"], pair.ref, lambda: ostore.query(fset), filters=fl,
+                                                   extra={"routes": {"argument": len(fl), "filterset_object": 2}}))
+                        else:
+                            lines.append(read_line(tid, "query", name, listed, pair.ref, lambda: store.query([D.conc_filter(f, rng) for f in fl]), filters=fl + att,
+                                                   extra={"routes": {"argument": len(fl), "attached": len(att)}}))
                     finally:
                         src.filters.remove([f for f in list(src.filters)])
             # composite over 2-3 members holding overlapping parts of the population
